@@ -216,7 +216,101 @@ def _check_case(ctx, r, variant):
             ctx.notes["second_opinion_examples"].append({"output": out[:400]})
 
 
+def _tags_with_paths(live, r, path=()):
+    out = [(live, r)]
+    kids = [c for c in live.children]
+    rk = gen.flat_children(r)
+    if len(kids) == len(rk):
+        for lc, rc in zip(kids, rk):
+            if isinstance(lc, ht.Tag) and rc["k"] == "tag":
+                out.extend(_tags_with_paths(lc, rc))
+    return out
+
+
+def mutate_pair(rng, live, r):
+    """Apply one public-API mutation to a live tag and mirror it on its recipe; returns a description."""
+    from ..ref.attrs import norm_name
+
+    t, tr = rng.choice(_tags_with_paths(live, r))
+    m = rng.choice(["pop", "del", "clear", "set_new", "append_text", "del_child", "remove_class", "rename"])
+    names = []
+    for n, v in tr["attrs"]:
+        if v["t"] not in ("none", "false") and norm_name(n) not in names:
+            names.append(norm_name(n))
+    if m in ("pop", "del") and names:
+        nm = rng.choice(names)
+        if m == "pop":
+            t.attrs.pop(nm)
+        else:
+            del t.attrs[nm]
+        tr["attrs"] = [[n, v] for n, v in tr["attrs"] if norm_name(n) != nm]
+    elif m == "clear":
+        t.attrs.clear()
+        tr["attrs"] = []
+    elif m == "remove_class" and "class" in names and all(v["t"] == "str" for n, v in tr["attrs"] if norm_name(n) == "class"):
+        # removing every token one by one ends with the attribute being dropped
+        for tok in list(dict.fromkeys(str(t.attrs.get("class", "")).split())):
+            t.remove_class(tok)
+        if "class" in t.attrs:
+            return None  # (tokens the helper cannot address; leave the recipe alone and skip)
+        tr["attrs"] = [[n, v] for n, v in tr["attrs"] if norm_name(n) != "class"]
+    elif m == "set_new":
+        t.attrs["data-mutated"] = "m<&>\""
+        tr["attrs"] = [[n, v] for n, v in tr["attrs"] if norm_name(n) != "data-mutated"] + [["data-mutated", {"t": "str", "s": "m<&>\""}]] \
+            if "data-mutated" not in names else tr["attrs"]
+        if "data-mutated" in names:
+            return None
+    elif m == "append_text":
+        t.append("added<&")
+        tr["c"] = gen.flat_children(tr) + [{"k": "text", "s": "added<&"}]
+    elif m == "del_child" and len(t.children) and len(t.children) == len(gen.flat_children(tr)):
+        i = rng.randrange(len(t.children))
+        del t.children[i]
+        kids = gen.flat_children(tr)
+        del kids[i]
+        tr["c"] = kids
+    elif m == "rename" and tr["name"] not in ("script", "style"):
+        t.name = "renamed-el"
+        tr["name"] = "renamed-el"
+    else:
+        return None
+    return m
+
+
+def check_mutation_history(ctx, r):
+    """The tree after public-API mutations is a tree like any other: render, mutate, render again."""
+    import copy as _c
+
+    r = gen.unshare(r)
+    live = gen.build(r)
+    live.get_html_string()  # first rendering (a cache filled here must not survive the mutations)
+    log = []
+    for _ in range(ctx.rng.randint(1, 4)):
+        m = mutate_pair(ctx.rng, live, r)
+        if m:
+            log.append(m)
+        live.get_html_string(1, "\r\n")
+    if not log:
+        return
+    out = live.get_html_string()
+    ctx.count("oracle.parse_back_after_mutation")
+    wit = {"recipe_after_mutation": r, "mutations": log, "output": out[:2000]}
+    try:
+        forest = [n for n in tokenizer.build_tree(tokenizer.tokenize(out)) if isinstance(n, tokenizer.Node) or n[1].strip()]
+        if len(forest) != 1:
+            raise Mismatch("root-structure", "not a single root")
+        compare(forest[0], r, " \t\r\n\f")
+    except tokenizer.Forged as f:
+        ctx.violation("stale-after-mutation:forged", "after %s: %s" % (log, f), wit)
+    except Mismatch as mm:
+        ctx.violation("stale-after-mutation:" + mm.key, "after mutations %s the rendering does not parse back to the mutated tree: %s" % (log, mm), wit)
+    for m in log:
+        ctx.state("mutations_between_renderings", m)
+
+
 def replay(ctx, w):
+    if "recipe_after_mutation" in w:
+        return
     check_case(ctx, w["recipe"], (0, "\n"))
     for ind in (1, 7):
         for eol in ("\r\n", ""):
@@ -327,6 +421,8 @@ def _run(ctx):
         r = gen.rand_tree(rng, depth=depth, max_children=rng.choice([2, 3, 5, 8]))
         check_case(ctx, r)
         ctx.case(r, nontrivial=nontrivial(r))
+        if rng.random() < 0.25:
+            ctx.guard(check_mutation_history, ctx, r, witness={"recipe": r})
         for x in gen.walk(r):
             if x["k"] == "tag":
                 ctx.state("names_seen", x["name"])
